@@ -63,6 +63,7 @@ func vDeployVersion(contract string, version int, args ...any) {}
 func vUpdateFrom(contract string, oldVersion int, data ...any) (bool, any) { return false, nil }
 func vRepoVersion() int                                    { return 0 }
 func vHeight() int                                         { return 0 }
+func vTime() int                                           { return 0 }
 func vEq(a, b []byte) bool                                 { return false }
 func vSha256(b []byte) []byte                              { return nil }
 `
@@ -411,6 +412,11 @@ func (e *Engine) vcall(fn *ssa.Function, s *St, in *ssa.Call, ip int, short stri
 			return set(IntV{I(int64(e.world.ex.Chain.BlockHeight()))})
 		}
 		return set(IntV{s.height})
+	case "vTime": // timestamp (ms) of the block of the last transaction; reads run at vTime()+1
+		if e.model != nil {
+			return set(IntV{I(int64(e.world.ex.TopBlock(e.world.t).Timestamp))})
+		}
+		return set(IntV{s.lastTime})
 	case "vAdvanceTime": // mine an empty block whose timestamp is ms later than the last one
 		ms := args[0].(IntV).t
 		if e.model != nil {
